@@ -8,13 +8,23 @@ A case is a history of top-level calls on ONE primitive:
          ["R", l]              p.release() on behalf of acquisition l
          ["K", l]              d_l.cancel()
          ["F", l, 0|1]         fire j_l with a failure / a value
+         ["U", l, "c", [op, ...]]  as "d", but j_l has fired-or-not AND is chained: a callback of j_l returns a second
+                               Deferred k_l, so "f's result is available" only once j_l failed or (j_l and k_l fired)
+         ["J", l, 0|1]         fire the outer j_l of a chained run     ["G", l, 0|1]   fire the inner k_l
+    optional keys of the case (the circumstances; none of them may change what the primitive does):
+         "exc":  class raised by failing functions / used to fail j_l: "Boom" (an Exception, default), "Base" (a
+                 BaseException subclass), "KeyboardInterrupt", "SystemExit", "GeneratorExit"
+         "jcls": class of the Deferreds returned by functions: "plain" (default) | "sub" (subclass of Deferred) |
+                 "mix" (odd labels: a subclass of a subclass)
+         "debug": true → the history runs under defer.setDebugging(True)
 Observable (both sides): per top-level call the events in order and a snapshot of the object:
     q<l> requested, g<l> granted (callback ran / f called), c<l> acquisition failed with CancelledError,
-    e<l> the function of run l returns/raises, R<l> K<l> F<l>:<b> user calls, rel = release() entered,
+    e<l> the function of run l returns/raises, R<l> K<l> F<l>:<b> J<l>:<b> G<l>:<b> user calls, rel = release() entered,
     x = it raised AssertionError,
     r<l>=ok|err|cancel|assert = result of run(), bad = op ignored;  @L0|L1|<tokens>/<waiting labels>
 """
 
+from twisted.internet import defer as _defer
 from twisted.internet.defer import CancelledError, Deferred, DeferredLock, DeferredSemaphore
 from twisted.python.failure import Failure
 
@@ -24,12 +34,25 @@ RULE = ("bounded-exhaustive histories (every op applicable in the current state 
         "body: fires its own Deferred / acquires and cancels itself), release by each holder, cancel "
         "of each pending / granted / waiting-on-j acquisition, fire each unfired j) for the lock and limits 1..3, plus "
         "seeded random histories up to 200 ops with nested scripts (depth<=3) and ~10% ill-formed ops (release by "
-        "non-holder, label reuse, unknown label, double fire); distinct = (kind, limit, multiset class of event "
+        "non-holder, label reuse, unknown label, double fire).  Circumstances that must not matter are part of the "
+        "case: the class raised by failing functions / used to fail their Deferreds (an Exception, a BaseException "
+        "subclass, KeyboardInterrupt, SystemExit, GeneratorExit), the class of the Deferreds functions return (Deferred, "
+        "a subclass, a subclass of a subclass), Deferred debugging on/off — ~35% / ~35% / ~25% of the random "
+        "histories and one bounded-exhaustive block each (quick: depth 3); the model line ignores them, so the tie "
+        "checks that the real objects do too.  run(f, *args, **kwargs) is always called with a positional and keyword "
+        "arguments.  Chained result Deferreds (kind c: f returns j_l whose callback returns a second Deferred k_l, so "
+        "j_l may have fired without the result being available; ops J/G fire j_l/k_l before, inside and after f): "
+        "bounded-exhaustive blocks (lock and sem 2 to depth 4, sem 1 to depth 3) and ~28% of the random histories — these are judged "
+        "by the oracle only (no model counterpart).  distinct = (kind, limit, circumstances, multiset class of event "
         "bigrams, max nesting, ill-formed?)")
 ASSUMES = ["release() is called only on behalf of a current holder (the code asserts a weaker condition); histories "
            "violating it are still tied to the model but not judged by the oracle",
            "user callbacks do not let exceptions escape other than through run(f)'s f raising",
-           "functions given to run() return a plain value, raise, or return a Deferred without a canceller of its own"]
+           "functions given to run() return a plain value, raise (any BaseException class), or return a Deferred (any "
+           "subclass; unfired, fired, or fired and waiting on an inner Deferred) without a canceller of its own",
+           "histories with chained result Deferreds (kind c, ops J/G) have no counterpart in the Lean model: the property "
+           "is evaluated on them by the oracle alone; the theorems cover them only through the abstraction 'j_l fires' = "
+           "'the result of what f returned becomes available'"]
 TRUSTED = ["Deferred abstraction of the model: pending iff in `waiting`; callbacks run synchronously at fire "
            "(call stack = agenda); validated by the tie on every run"]
 MANIFEST = {
@@ -37,7 +60,8 @@ MANIFEST = {
             "DeferredSemaphore/run()/_cancelAcquire with re-entrant grant callbacks: capacity conserved, holders <= limit, "
             "waiting => no free capacity, grant order = request order minus cancelled, cancelled never granted, run "
             "releases exactly once after its result; model tied to defer.py by bounded-exhaustive and random histories "
-            "on the real objects.",
+            "on the real objects, also with failures outside Exception, Deferred subclasses as results and Deferred "
+            "debugging on (none of which the model distinguishes); chained result Deferreds are oracle-only.",
     "note": "trusts Lean kernel, the hand-written model (differentially tied), the Deferred abstraction",
     "technique": "Lean 4 invariant proof over a small-step model + differential tie + independent oracle",
     "design_ref": "DESIGN.md §7 C06",
@@ -46,6 +70,26 @@ MANIFEST = {
 
 class _Boom(Exception):
     pass
+
+
+class _BoomBase(BaseException):
+    """a failure of the function that is not an `Exception`"""
+
+
+_EXC = {"Boom": _Boom, "Base": _BoomBase, "KeyboardInterrupt": KeyboardInterrupt, "SystemExit": SystemExit,
+        "GeneratorExit": GeneratorExit}
+
+
+class _SubDeferred(Deferred):
+    """functions given to run() may return any Deferred, e.g. a DeferredList or a user subclass"""
+
+
+class _SubSubDeferred(_SubDeferred):
+    pass
+
+
+def _opts(c):
+    return {"exc": c.get("exc", "Boom"), "jcls": c.get("jcls", "plain")}
 
 
 # ------------------------------------------------------------------------------------------
@@ -72,8 +116,12 @@ def _mk(kind, limit, log, created):
 
 
 class Runner:
-    def __init__(self, kind, limit):
+    def __init__(self, kind, limit, opts=None):
         self.kind, self.limit = kind, limit
+        opts = opts or {}
+        self.exc = _EXC[opts.get("exc", "Boom")]
+        self.jcls = opts.get("jcls", "plain")
+        self.k = {}         # label -> inner Deferred of a chained run
         self.log, self.created = [], []
         self.p = _mk(kind, limit, self.log, self.created)
         self.known = {}     # label -> ("A", script) | ("U", fk)
@@ -120,11 +168,17 @@ class Runner:
                 return
             fk = op[2]
             self.known[l] = ("U", fk)
-            if fk == "d":
-                self.j[l] = Deferred()
+            if fk in ("d", "c"):
+                cls = (Deferred if self.jcls == "plain" else _SubDeferred if self.jcls == "sub" or l % 2 == 0
+                       else _SubSubDeferred)
+                self.j[l] = cls()
+                if fk == "c":
+                    k = self.k[l] = cls()
+                    self.j[l].addCallback(lambda _, k=k: k)
             log.append(f"q{l}")
+            body = op[3] if len(op) > 3 else []
 
-            def f(l=l, fk=fk, body=(op[3] if len(op) > 3 else [])):
+            def f(l, *, fk, body):                # called as run(f, l, fk=…, body=…)
                 log.append(f"g{l}")
                 for o in body:
                     self.do(o)
@@ -132,7 +186,7 @@ class Runner:
                 if fk == "o":
                     return "value"
                 if fk == "e":
-                    raise _Boom()
+                    raise self.exc()
                 return self.j[l]
 
             orig = p.acquire
@@ -146,7 +200,7 @@ class Runner:
             p.acquire = acquire_and_take          # get hold of d_l before execute() runs
             try:
                 try:
-                    d = p.run(f)
+                    d = p.run(f, l, fk=fk, body=body)
                 finally:
                     p.__dict__.pop("acquire", None)
             except AssertionError:
@@ -156,7 +210,7 @@ class Runner:
             def seen(r, l=l):
                 if isinstance(r, Failure):
                     o = ("cancel" if r.check(CancelledError) else "assert" if r.check(AssertionError)
-                         else "err" if r.check(_Boom) else "!exc:" + r.type.__name__)
+                         else "err" if r.type is self.exc else "!exc:" + r.type.__name__)
                 else:
                     o = "ok" if r == "value" else "!val"
                 log.append(f"r{l}={o}")
@@ -177,14 +231,24 @@ class Runner:
                 self.d[l].cancel()
         elif t == "F":
             j = self.j.get(l)
-            if j is None or j.called:
+            if j is None or j.called or l in self.k:
                 log.append("bad")
                 return
             log.append(f"F{l}:{op[2]}")
             if op[2]:
                 j.callback("value")
             else:
-                j.errback(_Boom())
+                j.errback(self.exc())
+        elif t in ("J", "G"):
+            x = (self.j if t == "J" else self.k).get(l)
+            if l not in self.k or x.called:
+                log.append("bad")
+                return
+            log.append(f"{t}{l}:{op[2]}")
+            if op[2]:
+                x.callback("value")
+            else:
+                x.errback(self.exc())
         else:
             raise ValueError(op)
 
@@ -200,16 +264,21 @@ class Runner:
         return (",".join(evs) if evs else "-") + "@" + self.snapshot()
 
     def finish(self):
-        for j in self.j.values():
+        for j in list(self.j.values()) + list(self.k.values()):
             j.addErrback(lambda _: None)
 
 
 def run_impl(c):
-    r = Runner(c["kind"], c["limit"])     # DeferredSemaphore(0) raises ValueError → engine maps it
+    was = _defer.getDebugging()
+    _defer.setDebugging(bool(c.get("debug")))
     try:
-        segs = [r.top(op) for op in c["ops"]]
+        r = Runner(c["kind"], c["limit"], _opts(c))     # DeferredSemaphore(0) raises ValueError → engine maps it
+        try:
+            segs = [r.top(op) for op in c["ops"]]
+        finally:
+            r.finish()
     finally:
-        r.finish()
+        _defer.setDebugging(was)
     return "|".join(segs) if segs else "-"
 
 
@@ -219,12 +288,20 @@ def _tok(op):
         return [f"A{op[1]}["] + [x for o in op[2] for x in _tok(o)] + ["]"]
     if t == "U":
         return [f"U{op[1]}:{op[2]}["] + [x for o in (op[3] if len(op) > 3 else []) for x in _tok(o)] + ["]"]
-    if t == "F":
-        return [f"F{op[1]}:{op[2]}"]
+    if t in ("F", "J", "G"):
+        return [f"{t}{op[1]}:{op[2]}"]
     return [f"{t}{op[1]}"]
 
 
+def _has_chain(ops):
+    return any(o[0] in "JG" or (o[0] == "U" and (o[2] == "c" or _has_chain(o[3] if len(o) > 3 else [])))
+               or (o[0] == "A" and _has_chain(o[2])) for o in ops)
+
+
 def model_line(c):
+    # "exc", "jcls", "debug" do not appear: the model says the behaviour does not depend on them
+    if _has_chain(c["ops"]):
+        return None                                # chained result Deferreds: judged by the oracle only
     return " ".join([c["kind"], str(c["limit"])] + [x for o in c["ops"] for x in _tok(o)])
 
 
@@ -274,6 +351,7 @@ def _oracle(c, out):
     limit = 1 if c["kind"] == "lock" else c["limit"]
     pending, holders, cancelled = [], set(), set()
     jf, runwait, relcount, expect, reported, running = {}, set(), {}, {}, set(), set()
+    half, kf = set(), {}                               # chained runs: j_l fired and waits for k_l / what k_l fired with
     must_rel = None
 
     def bad(key, detail, i, seg):
@@ -367,6 +445,24 @@ def _oracle(c, out):
                 if l in runwait:
                     runwait.discard(l)
                     must_rel, expect[l] = l, jf[l]
+            elif h in ("J", "G"):
+                # the result of a chained run's function is there once j_l failed, or j_l and k_l have both fired
+                l, b = e[1:].split(":")
+                l = int(l)
+                if h == "J":
+                    if b == "0":
+                        jf.setdefault(l, "err")
+                    elif l in kf:
+                        jf.setdefault(l, kf[l])
+                    else:
+                        half.add(l)
+                else:
+                    kf[l] = "ok" if b == "1" else "err"
+                    if l in half:
+                        jf.setdefault(l, kf[l])
+                if l in jf and l in runwait:
+                    runwait.discard(l)
+                    must_rel, expect[l] = l, jf[l]
             elif h == "c":
                 l = int(e[1:])
                 if l not in cancelled or prev != f"K{l}":
@@ -427,15 +523,33 @@ def corpus():
         {"kind": "sem", "limit": 2, "ops": [["R", 1]]},                       # ill-formed: assertion
         {"kind": "lock", "limit": 1, "ops": [["A", 1, []], ["R", 1], ["R", 1], ["A", 1, []], ["K", 7], ["F", 7, 1]]},
         {"kind": "sem", "limit": 2, "ops": [["A", 1, []], ["U", 2, "d"], ["R", 2], ["R", 1], ["F", 2, 1]]},   # ill-formed: run result 'assert'
+        # the circumstances: failures outside `Exception`, Deferred debugging, subclasses of Deferred as results
+        # (mutation audit m07, m08, m09)
+        {"kind": "lock", "limit": 1, "exc": "KeyboardInterrupt", "ops": [["U", 1, "e"], ["A", 2, [["R", 2]]]]},
+        {"kind": "sem", "limit": 1, "exc": "Base", "ops": [["A", 1, []], ["U", 2, "e"], ["U", 3, "d"], ["R", 1], ["F", 3, 0]]},
+        {"kind": "sem", "limit": 2, "exc": "GeneratorExit", "ops": [["U", 1, "d", [["F", 1, 0]]], ["U", 2, "e", [["U", 3, "e"]]]]},
+        {"kind": "lock", "limit": 1, "exc": "SystemExit", "debug": True, "ops": [["A", 1, []], ["U", 2, "e"], ["U", 3, "o"], ["R", 1]]},
+        {"kind": "lock", "limit": 1, "debug": True, "ops": [["U", 1, "e"], ["U", 2, "d"], ["A", 3, []], ["K", 2], ["R", 3]]},
+        {"kind": "sem", "limit": 2, "debug": True, "ops": [["U", 1, "d"], ["U", 2, "e"], ["U", 3, "o"], ["A", 4, []], ["K", 4], ["F", 1, 0]]},
+        {"kind": "lock", "limit": 1, "jcls": "sub", "ops": [["U", 1, "d"], ["A", 2, [["R", 2]]], ["F", 1, 1]]},
+        {"kind": "sem", "limit": 1, "jcls": "mix", "ops": [["U", 1, "d"], ["U", 2, "d", [["F", 2, 0]]], ["K", 1], ["U", 3, "d"], ["F", 3, 1]]},
+        # chained result Deferreds: fired but still waiting for an inner Deferred (mutation audit m10)
+        {"kind": "lock", "limit": 1, "ops": [["U", 1, "c", [["J", 1, 1]]], ["A", 2, [["R", 2]]], ["G", 1, 1]]},
+        {"kind": "lock", "limit": 1, "ops": [["J", 1, 1], ["U", 1, "c"], ["U", 2, "o"], ["G", 1, 0]]},
+        {"kind": "sem", "limit": 1, "ops": [["U", 1, "c"], ["G", 1, 1], ["A", 2, []], ["J", 1, 1], ["R", 2]]},
+        {"kind": "sem", "limit": 2, "jcls": "sub", "ops": [["U", 1, "c"], ["U", 2, "c"], ["U", 3, "c"], ["J", 1, 1], ["K", 1], ["J", 2, 0], ["G", 3, 1], ["J", 3, 1]]},
+        {"kind": "lock", "limit": 1, "debug": True, "exc": "Base", "ops": [["U", 1, "c", [["J", 1, 1], ["G", 1, 0]]], ["U", 2, "c"], ["K", 2], ["G", 2, 1], ["J", 2, 1]]},
     ]
 
 
 class _Gen:
     """Builds a history while running it on the real object, so that most ops are applicable."""
 
-    def __init__(self, rng, kind, limit):
+    def __init__(self, rng, kind, limit, opts=None):
         self.rng, self.kind, self.limit = rng, kind, limit
-        self.r = Runner(kind, limit)
+        self.opts = dict(opts or {})
+        self.chain = bool(self.opts.pop("chain", False))    # may this history use chained result Deferreds?
+        self.r = Runner(kind, limit, self.opts)
         self.next = 1
         self.ops = []
         self.dead = False
@@ -467,11 +581,11 @@ class _Gen:
                 s.append(["A", l, self.script(l, depth + 1)])
             elif x < 0.75:
                 l = self.fresh()
-                s.append(["U", l, rng.choice("oed"), self.script(None, depth + 1) if depth < 3 and rng.random() < 0.4 else []])
+                s.append(["U", l, rng.choice("oedc" if self.chain else "oed"), self.script(None, depth + 1) if depth < 3 and rng.random() < 0.4 else []])
             elif x < 0.88:
                 s.append(["K", rng.randint(1, max(1, self.next - 1))])
             elif x < 0.96:
-                s.append(["F", rng.randint(1, max(1, self.next - 1)), rng.randint(0, 1)])
+                s.append([rng.choice("FFJG" if self.chain else "F"), rng.randint(1, max(1, self.next - 1)), rng.randint(0, 1)])
             else:
                 s.append(["R", rng.randint(1, max(1, self.next - 1))])    # usually ill-formed
         return s
@@ -490,7 +604,9 @@ class _Gen:
         rng = self.rng
         x = rng.random()
         hs, pend = self.holders(), self.pending()
-        unfired = [l for l, j in self.r.j.items() if not j.called]
+        unfired = [["F", l] for l, j in self.r.j.items() if not j.called and l not in self.r.k]
+        unfired += [["J", l] for l, k in self.r.k.items() if not self.r.j[l].called]
+        unfired += [["G", l] for l, k in self.r.k.items() if not k.called]
         if illformed and x < 0.08:
             op = rng.choice([["R", rng.randint(1, self.next + 1)], ["A", rng.randint(1, self.next), []],
                              ["K", self.next + 3], ["F", rng.randint(1, self.next + 1), 1],
@@ -501,9 +617,10 @@ class _Gen:
         elif x < 0.45:
             l = self.fresh()
             body = self.script(None, 1) if rng.random() < 0.4 else []
-            if body and rng.random() < 0.3:
-                body.append(["F", l, rng.randint(0, 1)])        # f fires its own Deferred before returning it
-            op = ["U", l, rng.choice("oeddd"), body]
+            fk = rng.choice("oedddccc" if self.chain else "oeddd")
+            if body and rng.random() < 0.3:                     # f fires its own Deferred before returning it
+                body.append([rng.choice("JJG") if fk == "c" else "F", l, rng.randint(0, 1)])
+            op = ["U", l, fk, body]
         elif x < 0.70 and hs:
             op = ["R", rng.choice(hs)]
         elif x < 0.80 and pend:
@@ -511,7 +628,7 @@ class _Gen:
         elif x < 0.85 and self.next > 1:
             op = ["K", rng.randint(1, self.next - 1)]
         elif x < 0.97 and unfired:
-            op = ["F", rng.choice(unfired), rng.randint(0, 1)]
+            op = rng.choice(unfired) + [rng.randint(0, 1)]
         elif hs:
             op = ["R", hs[0]]
         else:
@@ -520,18 +637,35 @@ class _Gen:
         self.ops.append(op)
         try:
             self.r.top(op)
-        except Exception:            # the real code blew up: keep the history as a case, stop extending it
+        except BaseException as e:   # the real code blew up: keep the history as a case, stop extending it
+            if type(e) is KeyboardInterrupt and self.r.exc is not KeyboardInterrupt:
+                raise                # a real ^C
             self.dead = True
 
     def case(self):
         self.r.finish()
-        return {"kind": self.kind, "limit": self.limit, "ops": self.ops}
+        return dict({"kind": self.kind, "limit": self.limit, "ops": self.ops}, **self.opts)
+
+
+def _random_opts(rng):
+    """the circumstances of a history: about half of the cases depart from the defaults in at least one"""
+    o = {}
+    x = rng.random()
+    if x < 0.35:
+        o["exc"] = rng.choice(["Base", "KeyboardInterrupt", "SystemExit", "GeneratorExit"])
+    if rng.random() < 0.35:
+        o["jcls"] = rng.choice(["sub", "mix"])
+    if rng.random() < 0.25:
+        o["debug"] = True
+    if rng.random() < 0.28:
+        o["chain"] = True          # (not a key of the case: chained runs appear in its ops)
+    return o
 
 
 def _random_case(rng, n, illformed):
     kind = rng.choice(["lock", "sem", "sem"])
     limit = 1 if kind == "lock" else rng.choice([1, 1, 2, 2, 3, 5])
-    g = _Gen(rng, kind, limit)
+    g = _Gen(rng, kind, limit, _random_opts(rng))
     for _ in range(n):
         if g.dead:
             break
@@ -539,11 +673,15 @@ def _random_case(rng, n, illformed):
     return g.case()
 
 
-def _applicable(r, nxt, rich=True):
+def _applicable(r, nxt, rich=True, chain=False):
     """every op applicable in the state the real object is in (bounded-exhaustive alphabet)"""
-    ops = [["A", nxt, []], ["A", nxt, [["R", nxt]]], ["A", nxt, [["R", nxt], ["A", nxt + 100, []]]],
-           ["U", nxt, "o", []], ["U", nxt, "e", []], ["U", nxt, "d", []]]
-    if rich:
+    if chain:        # the alphabet around chained result Deferreds (kept small: every op on j_l / k_l is included)
+        ops = [["A", nxt, []], ["A", nxt, [["R", nxt]]], ["U", nxt, "c", []], ["U", nxt, "c", [["J", nxt, 1]]],
+               ["U", nxt, "o", []]]
+    else:
+        ops = [["A", nxt, []], ["A", nxt, [["R", nxt]]], ["A", nxt, [["R", nxt], ["A", nxt + 100, []]]],
+               ["U", nxt, "o", []], ["U", nxt, "e", []], ["U", nxt, "d", []]]
+    if rich and not chain:
         ops += [["U", nxt, "d", [["F", nxt, 1]]], ["U", nxt, "o", [["A", nxt + 100, [["R", nxt + 100]]], ["K", nxt]]]]
     issued = {int(e[1:]) for e in r.log if e[0] == "R"}
     seen_g = []
@@ -559,36 +697,44 @@ def _applicable(r, nxt, rich=True):
     if seen_g:
         ops.append(["K", seen_g[-1]])                   # cancel an already granted acquisition
     for l, j in r.j.items():
+        k = r.k.get(l)
         if not j.called:
-            ops.append(["F", l, 1])
-            ops.append(["F", l, 0])
+            ops.append(["F" if k is None else "J", l, 1])
+            ops.append(["F" if k is None else "J", l, 0])
+        if k is not None and not k.called:
+            ops.append(["G", l, 1])
+            ops.append(["G", l, 0])
+        if not j.called or (k is not None and not k.called):
             if l in seen_g and l not in pend and ["K", l] not in ops:
                 ops.append(["K", l])                    # cancel a run waiting on its Deferred
     return ops
 
 
-def _exhaustive(kind, limit, depth, budget, rich=True):
+def _exhaustive(kind, limit, depth, budget, rich=True, chain=False, opts=None):
     """DFS over all histories of `depth` applicable ops; yields maximal histories (prefixes are
-    checked through the per-call snapshots)."""
+    checked through the per-call snapshots).  `opts`: the circumstances ("exc", "jcls", "debug") of every history."""
     count = 0
     stack = [[]]
+    opts = opts or {}
     while stack:
         hist = stack.pop()
         if len(hist) == depth:
-            yield {"kind": kind, "limit": limit, "ops": hist}
+            yield dict({"kind": kind, "limit": limit, "ops": hist}, **opts)
             count += 1
             if count >= budget:
                 return
             continue
-        r = Runner(kind, limit)
+        r = Runner(kind, limit, opts)
         try:
             for op in hist:
                 r.top(op)
             nxt = 1 + sum(1 for o in hist if o[0] in "AU")
-            apps = _applicable(r, nxt, rich)
+            apps = _applicable(r, nxt, rich, chain)
             r.finish()
-        except Exception:            # the real code blew up on this prefix: it is a case by itself
-            yield {"kind": kind, "limit": limit, "ops": hist}
+        except BaseException as e:   # the real code blew up on this prefix: it is a case by itself
+            if type(e) is KeyboardInterrupt and r.exc is not KeyboardInterrupt:
+                raise
+            yield dict({"kind": kind, "limit": limit, "ops": hist}, **opts)
             count += 1
             continue
         for op in apps:
@@ -605,7 +751,21 @@ def generate(rng, tier):
             n += 1
             yield c
         _STATS[f"exhaustive_{kind}{limit}_depth{depth}" + ("" if rich else "_plain_run_bodies")] = n
-    for i in range(700 if quick else 12000):
+    # the same alphabet under each departure from the default circumstances, and the alphabet of chained results
+    d2 = 3 if quick else 4
+    plan2 = [("lock", 1, d2, False, {"exc": "KeyboardInterrupt"}), ("sem", 2, d2, False, {"exc": "Base"}),
+             ("sem", 1, d2, False, {"exc": "SystemExit", "debug": True}), ("lock", 1, d2, False, {"debug": True}),
+             ("sem", 2, d2, False, {"jcls": "sub"}), ("lock", 1, d2, False, {"jcls": "mix", "exc": "GeneratorExit"}),
+             ("lock", 1, 4 if quick else 5, True, {}), ("sem", 1, 3 if quick else 5, True, {}),
+             ("sem", 2, 4, True, {"jcls": "sub"}), ("lock", 1, 3, True, {"debug": True, "exc": "Base"})]
+    for kind, limit, depth, chain, opts in plan2:
+        n = 0
+        for c in _exhaustive(kind, limit, depth, 10 ** 7, True, chain, opts):
+            n += 1
+            yield c
+        _STATS[f"exhaustive_{kind}{limit}_depth{depth}" + ("_chained" if chain else "") +
+               "".join(f"_{k}={v}" for k, v in sorted(opts.items()))] = n
+    for i in range(950 if quick else 15000):
         n = rng.choice([3, 6, 10, 20, 40] if quick else [5, 10, 20, 40, 80, 200])
         yield _random_case(rng, n, illformed=(i % 3 == 0))
     yield {"kind": "sem", "limit": 0, "ops": []}
@@ -633,10 +793,13 @@ def _drop(ops):
 
 
 def shrink(c):
+    for key in ("debug", "jcls", "exc"):
+        if key in c:
+            yield {k: v for k, v in c.items() if k != key}
     for ops in _drop(c["ops"]):
-        yield {"kind": c["kind"], "limit": c["limit"], "ops": ops}
+        yield dict(c, ops=ops)
     if c["kind"] == "sem" and c["limit"] > 1:
-        yield {"kind": "sem", "limit": c["limit"] - 1, "ops": c["ops"]}
+        yield dict(c, limit=c["limit"] - 1)
 
 
 def _depth(ops):
@@ -648,4 +811,6 @@ def tag(c, out):
     cls = lambda e: e.split("=")[0].rstrip("0123456789:") + ("=" + e.split("=")[1] if "=" in e else "")
     bigrams = sorted({cls(a) + ">" + cls(b) for a, b in zip(evs, evs[1:])})
     ill = "bad" in evs or "x" in evs
-    return f"{c['kind']}{c['limit'] if c['limit'] < 4 else 'n'}:d{_depth(c['ops'])}:{'ill' if ill else 'wf'}:" + " ".join(bigrams)[:400]
+    circ = ("X" if c.get("exc", "Boom") != "Boom" else "") + ("S" if c.get("jcls", "plain") != "plain" else "") + \
+           ("D" if c.get("debug") else "")
+    return f"{c['kind']}{c['limit'] if c['limit'] < 4 else 'n'}{circ}:d{_depth(c['ops'])}:{'ill' if ill else 'wf'}:" + " ".join(bigrams)[:400]
